@@ -46,8 +46,8 @@ def run_check(prop, tier, timeout=7200):
         out, rc = (e.stdout or b"").decode(errors="replace") if isinstance(e.stdout, bytes) else (e.stdout or ""), "timeout"
     finally:
         shutil.rmtree(ev, ignore_errors=True)
-    mechs = sorted(set(re.findall(r"mechanism=(\S+)", out)))
     known = sorted(set(re.findall(r"\[mechanism=([^,\]]+)", out)))
+    mechs = sorted(set(m.rstrip(",") for m in re.findall(r"mechanism=(\S+)", out)) - set(known))
     tail = [l for l in out.splitlines() if l.startswith((prop + ":", "INCONCLUSIVE"))][-2:]
     return {"rc": rc, "mechanisms": mechs, "known_findings": known, "tail": [t[:300] for t in tail]}
 
